@@ -383,6 +383,38 @@ pub fn run(args: &Args) -> i32 {
         out
     });
     record_text(res, "pumped-literals", &mut report);
+    // every \u{...} escape: all code points up to 0x110010 (quick: the ranges around every
+    // boundary of the encoding, the surrogate block, the upper limit, and every 257th code point)
+    let thorough = tier == Tier::Thorough;
+    let res = par_shards_big_stack(16, 64 << 20, |shard| {
+        let mut out = TextOut { n: 0, compiled: 0, formatted: 0, failures: vec![], distinct: HashSet::new() };
+        for cp in 0u32..=0x110010 {
+            if cp as usize % 16 != shard {
+                continue;
+            }
+            let near_boundary = cp < 0x900 || (0xd700..0xe100).contains(&cp) || (0xff00..0x10100).contains(&cp) || cp >= 0x10ff00;
+            if !thorough && !near_boundary && cp % 257 != 0 {
+                continue;
+            }
+            let m = format!("x = '\\u{{{cp:x}}}'");
+            out.n += 1;
+            match text_pipeline(&m) {
+                Ok(o) => {
+                    if o & 1 != 0 {
+                        out.compiled += 1;
+                    }
+                    out.distinct.insert(hash_of(&(o, char::from_u32(cp).map(|c| c.len_utf8()))));
+                }
+                Err(p) => {
+                    if out.failures.len() < 5 {
+                        out.failures.push((m.clone(), p));
+                    }
+                }
+            }
+        }
+        out
+    });
+    record_text(res, "unicode-escapes", &mut report);
 
     // (2) core library calls
     let fns = core_functions();
@@ -421,6 +453,17 @@ pub fn run(args: &Args) -> i32 {
             let call = if form == "({})..." { format!("(|x...| x)({}...)", a.2) } else { call };
             scripts.push(call_script(&[a.1], &call));
             labels.push(format!("op {form} on {}", a.0));
+        }
+        // interpolation with format options (precision truncates non-numbers by graphemes)
+        for spec in ["", "?", ".0", ".1", ".2", ".3", ".1?", ".2?", "3", "<3", ">4.1", "é^5.2", "03", "x", "e", ".2e", "#?"] {
+            let value = if a.2.contains('\'') { a.0.to_string() } else { a.2.to_string() };
+            if a.2.contains('\'') {
+                // string literals cannot be nested in the template: bind them first
+                scripts.push(call_script(&[a.1, &format!("fv = {}\n", a.2)], &format!("'{{fv:{spec}}}'")));
+            } else {
+                scripts.push(call_script(&[a.1], &format!("'{{{value}:{spec}}}'")));
+            }
+            labels.push(format!("interpolation '{{{}:{spec}}}'", a.0));
         }
         for b in &pool {
             for op in bin_ops {
@@ -483,6 +526,25 @@ pub fn run(args: &Args) -> i32 {
         let eff = lines.iter().position(|l| l.starts_with("cb = |x|") || l.trim_start().starts_with("@<: |o|") || l.trim() == "@display: ||").and_then(|i| lines.get(i + 1)).map(|l| l.trim().to_string()).unwrap_or_default();
         labels.push(format!("re-entrant: `{call}` while its callback / comparison does `{eff}`"));
         scripts.push(prog.replace("print r\n", "d = '{r}'\n").replace("print l\n", "d = '{l}'\n").replace("print m\n", "d = '{m}'\n").replace("print 'error'\n", "d = '{err}'\n"));
+    }
+    // callbacks that advance / inspect / copy the iterator that is running them (reached through a map field)
+    for source in ["(1..5)", "[1, 2, 3]", "'abc'", "{a: 1, b: 2}", "(1, 2, 3).iter().peekable()"] {
+        for adaptor in ["each", "keep", "take", "flatten_each", "generate", "fold-consumer", "find-consumer"] {
+            for op in ["next()", "next_back()", "count()", "to_list()", "size_hint()", "peekable().peek()", "reversed().next()", "skip(1).next()"] {
+                let touch = if op == "size_hint()" { "koto.copy(m.it)".to_string() } else { format!("m.it.{op}") };
+                let build = match adaptor {
+                    "each" => format!("m.it = {source}.each |x| {touch}"),
+                    "keep" => format!("m.it = {source}.keep |x|\n  {touch}\n  true"),
+                    "take" => format!("m.it = {source}.take |x|\n  {touch}\n  true"),
+                    "flatten_each" => format!("m.it = {source}.each(|x| ({touch}, x)).flatten()"),
+                    "generate" => format!("m.it = iterator.generate 3, || {touch}"),
+                    "fold-consumer" => format!("m.it = {source}.iter()\nm.r = m.it.fold 0, |a, x|\n  {touch}\n  a"),
+                    _ => format!("m.it = {source}.iter()\nm.r = m.it.find |x|\n  {touch}\n  false"),
+                };
+                labels.push(format!("re-entrant iterator: {source} {adaptor} with a callback doing {touch}"));
+                scripts.push(format!("m = {{}}\ntry\n  {}\n  a = m.it.next()\n  b = m.it.next()\n  d = '{{a}} {{b}} {{m.it.to_list()}}'\ncatch e\n  d = '{{e}}'\n", build.replace('\n', "\n  ")));
+            }
+        }
     }
     for m in pumped_literals() {
         labels.push(format!("pumped literal: {m}"));
@@ -550,6 +612,10 @@ fn text_key(s: &str, p: &str) -> Option<String> {
 }
 
 /// finding keys for core-lib calls: (function, argument classes) shapes
-fn call_key(_label: &str, _m: &str) -> Option<String> {
+fn call_key(label: &str, m: &str) -> Option<String> {
+    // shape: the program's callback touches the iterator that is running it; class: borrow panic
+    if label.starts_with("re-entrant iterator:") && (m.contains("already borrowed") || m.contains("already mutably borrowed")) {
+        return Some("reentrant-iterator-advance".into());
+    }
     None
 }
